@@ -141,6 +141,16 @@ def siteHmm (bprobs : List R) (switch : R) (lhs : List (List R)) (index : List N
   let pp := patchProbs bprobs
   forward (npatch bprobs.length) (switchMatrix switch pp) pp (siteEmissions bprobs lhs index)
 
+/-! ### the published definition at the level of the BINS (spec side; what `siteHmm` is proved equal to) -/
+
+/-- probability of moving from bin `b` to bin `c`: move between their patches, then draw `c` within its patch -/
+def binMatrix (bprobs : List R) (switch : R) : Mat R := fun b c =>
+  switchMatrix switch (patchProbs bprobs) (alloc bprobs.length b) (alloc bprobs.length c) * condProbs bprobs c
+
+/-- per site the likelihood under every bin: `lhs[b][index[site]]` -/
+def binEmissions (lhs : List (List R)) (index : List Nat) : List (Nat → R) :=
+  index.map fun u b => (lhs.getD b []).getD u 0
+
 /-- REGRESSION NOTE: `SiteHmm.__call__` with the pre-fix loop -/
 def siteHmmOld (bprobs : List R) (switch : R) (lhs : List (List R)) (index : List Nat) : R :=
   let pp := patchProbs bprobs
